@@ -40,6 +40,8 @@ THEOREMS = [
     "Nix.C09.scalable_iff_same_unit_power",
     "Nix.C09.scalable_lists",
     "Nix.C09.atomic_exact",
+    "Nix.C09.atom_reading_unique",
+    "Nix.C09.split_of_non_atomic",
     "Nix.C09.compound_exact",
     "Nix.C09.si_exact",
     "Nix.C09.sanitizer_atoms",
